@@ -12,6 +12,9 @@ def sizesLine (line : String) : String :=
     if sizes.all appendAcceptsSize then
       if freshBatchSeals (nat! segSize) sizes then "ok readable sealed" else "ok readable"
     else "err"
+  | "walbatch" :: ss =>
+    -- every entry's encoded size (data + at most 40 bytes of codec fields) is within the maximum: accepted, readable
+    if (ss.map nat!).all (fun n => appendAcceptsSize (n + 40)) then "ok readable" else "err"
   | "multi" :: _segSize :: _pre :: ss =>
     -- a batch far below the segment size limit: accepted iff every entry is, never sealing
     if (ss.map nat!).all appendAcceptsSize then "ok readable" else "err"
